@@ -5,7 +5,7 @@
    (counter-clockwise) turn o -> a -> b, [lt2] is the lexicographic order on (lon, lat).
    "Consecutive" vertices are given by decomposition: the list is l1 ++ a :: b :: l2. *)
 From Coq Require Import Sorted Permutation.
-From GV Require Import Prelude HullM HullP HullP2 HullP3 HullP4 HullP5.
+From GV Require Import Prelude HullM HullP HullP2 HullP3 HullP4 HullP5 HullP6.
 Open Scope Z_scope.
 
 (* ---- vertices are input coordinates -------------------------------------------------------- *)
@@ -93,6 +93,35 @@ Theorem C10_hull_contains : forall l p, In p l ->
   forall l1 a b l2, hull l = l1 ++ a :: b :: l2 -> cross a b p >= 0.
 Proof. exact hull_contains. Qed.
 Print Assumptions C10_hull_contains.
+
+(* ---- exactness: the ring is THE convex hull ---------------------------------------------------- *)
+(* For inputs that are not all collinear, [hull l] has all the clauses of the property at once ... *)
+Theorem C10_hull_meets_spec : forall l,
+  (exists p q r, In p l /\ In q l /\ In r l /\ cross p q r <> 0) ->
+  exists v0 mid,
+    hull l = v0 :: mid ++ [v0] /\ NoDup (v0 :: mid) /\
+    (forall v, In v (hull l) -> In v l) /\
+    (forall p, In p l -> le2 v0 p) /\
+    (forall l1 a b c l2, hull l ++ [nth 1 (hull l) (0, 0)] = l1 ++ a :: b :: c :: l2 -> cross a b c > 0) /\
+    (forall p, In p l -> forall l1 a b l2, hull l = l1 ++ a :: b :: l2 -> cross a b p >= 0).
+Proof. exact hull_meets_spec. Qed.
+Print Assumptions C10_hull_meets_spec.
+
+(* ... and ANY ring r with those clauses (closed, no repeated vertex, vertices among the inputs,
+   starting at the lexicographically smallest input, strict left turns all the way round, every
+   input on or left of every edge) is equal to [hull l]: the clauses determine the answer, so the
+   model is the exact-arithmetic reference and not merely one ring among several.
+   (non-vacuous: by C10_hull_meets_spec the hypotheses are met by r := hull l for every such l) *)
+Theorem C10_hull_unique : forall l r v0 mid,
+  (exists p q r, In p l /\ In q l /\ In r l /\ cross p q r <> 0) ->
+  r = v0 :: mid ++ [v0] -> NoDup (v0 :: mid) ->
+  (forall v, In v r -> In v l) ->
+  (forall p, In p l -> le2 v0 p) ->
+  (forall l1 a b c l2, r ++ [nth 1 r (0, 0)] = l1 ++ a :: b :: c :: l2 -> cross a b c > 0) ->
+  (forall p, In p l -> forall l1 a b l2, r = l1 ++ a :: b :: l2 -> cross a b p >= 0) ->
+  r = hull l.
+Proof. exact hull_unique. Qed.
+Print Assumptions C10_hull_unique.
 
 (* ---- the public entry points return exactly that ring ----------------------------------------- *)
 (* GeoPolygon's constructor neither re-closes nor reverses the hull: it is closed and its
